@@ -9,7 +9,8 @@ COMMON_TRUSTED = [
 
 PROPS = {
     "C01": dict(
-        engines=[dict(name="arith", quick=700, thorough=40000, shard=500, trivial_tags=[])],
+        engines=[dict(name="arith", quick=700, thorough=40000, shard=500, trivial_tags=[]),
+                 dict(name="noneed", quick=500, thorough=20000, shard=250, trivial_tags=["not-a-rollback"])],
         rule="seeded generator over (workload kind of 7, plan of 1-6 int/percent/mixed steps, replicas 0..10^5 with boundary values and the "
              "99..219 region, current batch, noNeedUpdateReplicas, current knob: absent/initial/earlier batch/arbitrary) + corpus of the "
              "known-finding witnesses; every case runs the real CalculateBatchContext and UpgradeBatch on the fake client; distinct = distinct input JSON",
@@ -26,7 +27,8 @@ PROPS = {
                  dict(name="rolloutsm", quick=1200, thorough=60000, shard=400, trivial_tags=["no-change", "status-not-written"]),
                  dict(name="rolloutbg", quick=800, thorough=40000, shard=400, trivial_tags=["no-change", "status-not-written"]),
                  dict(name="brexec", quick=600, thorough=30000, shard=400, trivial_tags=["status-unchanged"]),
-                 dict(name="rollouttr", quick=800, thorough=40000, shard=400, trivial_tags=["no-network-write"])],
+                 dict(name="rollouttr", quick=800, thorough=40000, shard=400, trivial_tags=["no-network-write"]),
+                 dict(name="events", quick=800, thorough=30000, shard=400, trivial_tags=[])],
         rule="as C01 (arith engine): the readiness target DesiredUpdatedReplicas returned by the real CalculateBatchContext is compared with what the knob "
              "left by the real UpgradeBatch admits; gateway / ingress engines: every provider operation is repeated once (fixed-point probe); rolloutsm / rolloutbg / "
              "brexec engines (see C02, C11): one real Reconcile per generated state; a reconcile that changed nothing, reported no error and asked for no requeue must be "
@@ -69,10 +71,17 @@ PROPS = {
              "containing only that owner's calls, and the whole history with the model. One quarter are 2-3 generated Rollouts with traffic routing (rollouttr generator: every "
              "phase, finalising cursors, network states), each in its own namespace with its own UIDs but identical object names, reconciled 2-4 times by one goroutine per Rollout "
              "CONCURRENTLY on one client and one process (shared grace store, watch registry, Lua configuration), compared object by object (timestamps scrubbed) with the same "
-             "Rollout run alone; a data race report or a panic fails the check; non-trivial = every case; distinct = distinct input JSON",
-        trusted=["Go race detector (dynamic: it sees the interleavings that occur)", "controller-runtime fake client is goroutine-safe", "hooks VerifNewReconciler, grace.VerifAge"],
+             "Rollout run alone; a data race report or a panic fails the check. Since round 5, one case in ten each: (expect-store) 5-20 Expect / Observe / "
+             "SatisfiedExpectations / DeleteExpectations calls of 2-3 owners on the REAL creation-expectation store under namespace/name keys that share the name, compared with "
+             "Model/Expect.v and with each owner's solo run; (expect-cp) 2-3 canary-style BatchReleases, 70%% with the SAME name in different namespaces, whose real canary "
+             "control-plane Initialize and real workload event handler (creation observed) run in a generated interleaving, each tenant's per-step results compared with its solo "
+             "run; (lua) 3-7 workers running fresh provider-like scripts through the real luamanager.RunLuaScript at the same moment, outputs compared with solo runs; "
+             "non-trivial = every case; distinct = distinct input JSON",
+        trusted=["Go race detector (dynamic: it sees the interleavings that occur)", "controller-runtime fake client is goroutine-safe",
+                 "hooks VerifNewReconciler, grace.VerifAge, batchrelease.VerifWorkloadEventHandler; the harness replaces the exported package variable expectations.ResourceExpectations by a fresh store between runs"],
         assumptions=["Rollouts have distinct UIDs, their stable Services are distinct objects, canary Service namespace/name pairs are distinct (otherwise they share keys by design)",
-                     "BatchRelease controller and creation expectations are not part of the concurrent run"],
+                     "expectation timeouts (5 min) are not modelled: they only ever release the key they belong to",
+                     "namespaces contain no '/' (Kubernetes names never do)"],
         explanation="non-interference theorem for the shared store over all interleavings; race freedom and equality with the solo run are tests on the real code under -race",
     ),
     "C20": dict(
@@ -263,7 +272,8 @@ PROPS = {
     "C18": dict(
         engines=[dict(name="rolloutsm", quick=1200, thorough=60000, shard=400, trivial_tags=["no-change", "status-not-written"]),
                  dict(name="brexec", quick=600, thorough=30000, shard=400, trivial_tags=["status-unchanged"]),
-                 dict(name="trctl", quick=800, thorough=30000, shard=400, trivial_tags=[])],
+                 dict(name="trctl", quick=800, thorough=30000, shard=400, trivial_tags=[]),
+                 dict(name="trfin", quick=400, thorough=10000, shard=400, trivial_tags=[])],
         rule="rolloutsm and brexec engines with deleting objects in every phase, with and without finalizer; trctl engine: TrafficRouting objects in every persisted phase, live or "
              "deleting, with / without the controller's finalizer and finalizers of progressing Rollouts, network states (stable Service present / missing, canary Ingress absent / "
              "this / another strategy), pending or elapsed grace expectations, zero grace, and an injected failure of the gateway read; one real TrafficRoutingReconciler.Reconcile",
@@ -275,7 +285,8 @@ PROPS = {
     "C11": dict(
         engines=[dict(name="brexec", quick=1200, thorough=60000, shard=400, trivial_tags=["status-unchanged"]),
                  dict(name="bgfinal", quick=600, thorough=20000, shard=300, trivial_tags=["partitioned"]),
-                 dict(name="ctlplane", quick=800, thorough=30000, shard=400, trivial_tags=[])],
+                 dict(name="ctlplane", quick=800, thorough=30000, shard=400, trivial_tags=[]),
+                 dict(name="arith", quick=700, thorough=40000, shard=500, trivial_tags=[])],
         rule="seeded generator of (BatchRelease spec: plan, batchPartition incl. nil and beyond the plan, failureThreshold, deleting, finalizer; persisted status: every phase incl. "
              "empty/Initial/unknown, batch incl. out of range, every batch state incl. unknown, stale/current/empty plan hash, stale observed replicas/revisions; CloneSet: "
              "missing, unstable generation, promoted, scaled, rolled back, new template, progress below/at/above the batch, current partition absent/100%/target/arbitrary, "
@@ -289,16 +300,20 @@ PROPS = {
         engines=[dict(name="labelpatch", quick=400, thorough=20000, shard=400, trivial_tags=["no-write"])],
         rule="seeded structured generator of (plan, replicas, current batch, rollout-id, update revision, pods with revision labels/"
              "ReplicaSet owners/terminating flags/pre-existing rollout-id and batch-id strings incl. foreign, non-numeric, signed, "
-             "out-of-range, overflowing); a case is non-trivial when the model issues at least one label write, panics or errors; "
-             "distinct = distinct input JSON",
+             "out-of-range, overflowing), with no filter, the unordered filter (incl. the rollback-in-batches set-up of the partition controls) or, one case in five, the "
+             "ordered StatefulSet filter: pods named web-<ordinal> in shuffled listing order, planned / partition derived as the StatefulSet control derives them from a "
+             "number of no-need-update pods, pre-existing labels anywhere; for the ordered filter the pass is run a second time on a fresh store with the REVERSED listing; "
+             "a case is non-trivial when the model issues at least one label write, panics or errors; distinct = distinct input JSON",
         trusted=["util.ComputeHash of a ReplicaSet template is an opaque string supplied by the harness (computed by the real function)",
                  "strategic-merge patch of pod labels by the fake client = set the named labels"],
-        assumptions=["pod names are distinct", "0 <= currentBatch < len(batches) (the executor never calls the patcher otherwise)"],
+        assumptions=["pod names are distinct", "0 <= currentBatch < len(batches) (the executor never calls the patcher otherwise)",
+                     "ordered filter: pod names are <statefulset>-<ordinal> with distinct ordinals (a name without '-' makes sortPodsByOrdinal panic; pod names are not user-writable)",
+                     "a batch-id label is read as the number it spells (\"+1\", \"01\" are batch 1), as the patcher's strconv.Atoi does"],
         explanation="theorems over all pod lists/plans in Properties/C12.v; the same boolean clauses are evaluated on the real PatchPodBatchLabel output",
     ),
 }
 
-HOOK_COMMITS = ["bf5febd", "cd696c4", "9ed478c", "e2da513", "a1cf379"]
+HOOK_COMMITS = ["bf5febd", "cd696c4", "9ed478c", "e2da513", "a1cf379", "74a10c2"]
 NOT_APPLICABLE = []
 
 MANIFEST_TEXT = {
@@ -345,7 +360,10 @@ MANIFEST_TEXT = {
              "gets from the process-wide expectation store are exactly those it gets alone, provided the others do not use its keys (the keys embed the Rollout's UID, the stable "
              "Service's UID or the canary Service's namespace/name). The store model is compared with the real store on generated histories, and the real store's answers "
              "interleaved vs alone are compared directly. Tested, not proved: 2-3 real Rollout reconcilers run concurrently in one process under the Go race detector reach, "
-             "object by object, the state each reaches alone, with no race report and no panic.",
+             "object by object, the state each reaches alone, with no race report and no panic. The second process-wide store, the creation expectations of canary-style "
+             "BatchReleases, has its own model (Model/Expect.v, compared with the real store), the same non-interference theorem, and a theorem that the namespace/name key "
+             "tells apart BatchReleases that share a name; the real canary control plane and event handler of same-named BatchReleases in different namespaces are run "
+             "interleaved and compared with solo runs, and concurrent real Lua script runs are compared with solo runs under the race detector.",
         note="Data-race freedom is a property of the Go execution: it is tested dynamically (race detector), which is exploration, not proof. The dynamic watch registry and the Lua "
              "runtime are exercised by the concurrent run only.",
         design_ref="DESIGN.md section 9, C19"),
@@ -490,7 +508,8 @@ MANIFEST_TEXT = {
     "C12": dict(
         text="Proof: Properties/C12.v states, for every pod list, plan, replica count, batch and every label string, that batch-label writes of "
              "the PatchPodBatchLabel model go only to live new-revision pods not yet labelled for this release, one label per pod, at most "
-             "(increment - already counted) new labels per batch, that only live/current/parsable labels are counted, and that no input panics. "
+             "(increment - already counted) new labels per batch, that only live/current/parsable labels are counted, that no input panics, and that with the ordered "
+             "(StatefulSet) filter the writes are the same for every permutation of the pod list. "
              "The model is tied to the Go code by running the real PatchPodBatchLabel (twice, for idempotence) on generated pod sets and comparing "
              "labels and patch counts with the model inside Coq; the property clauses are also evaluated on the implementation's output.",
         note="Idempotence of a second pass is checked on the implementation's output on every case, not yet proved for the model; "
